@@ -124,6 +124,12 @@ func decodeUnicodeRune(s *Stream, p unsafe.Pointer) (rune, int64, unsafe.Pointer
 		return rune(0), 0, nil, errors.ErrInvalidCharacter(s.char(), "escaped string", s.totalOffset())
 	}
 
+	for i := int64(1); i < defaultOffset; i++ {
+		if c := s.buf[s.cursor+i]; !isHexDigit(c) {
+			s.cursor += i
+			return rune(0), 0, nil, errors.ErrSyntax(fmt.Sprintf("json: invalid character %c in \\u hexadecimal character escape", c), s.totalOffset())
+		}
+	}
 	r := unicodeToRune(s.buf[s.cursor+1 : s.cursor+defaultOffset])
 	if utf16.IsSurrogate(r) {
 		if !readAtLeast(s, surrogateOffset, &p) {
@@ -131,6 +137,12 @@ func decodeUnicodeRune(s *Stream, p unsafe.Pointer) (rune, int64, unsafe.Pointer
 		}
 		if s.buf[s.cursor+defaultOffset] != '\\' || s.buf[s.cursor+defaultOffset+1] != 'u' {
 			return unicode.ReplacementChar, defaultOffset, p, nil
+		}
+		for i := int64(defaultOffset + 2); i < surrogateOffset; i++ {
+			if c := s.buf[s.cursor+i]; !isHexDigit(c) {
+				s.cursor += i
+				return rune(0), 0, nil, errors.ErrSyntax(fmt.Sprintf("json: invalid character %c in \\u hexadecimal character escape", c), s.totalOffset())
+			}
 		}
 		r2 := unicodeToRune(s.buf[s.cursor+defaultOffset+2 : s.cursor+surrogateOffset])
 		if r := utf16.DecodeRune(r, r2); r != unicode.ReplacementChar {
